@@ -3,6 +3,7 @@ import Mutiny.Model.LockRing
 import Mutiny.Model.Handles
 import Mutiny.Model.IncAvg
 import Mutiny.Model.Stack
+import Mutiny.Model.Wake
 /-! Uniform interface of the executable models for the replay driver. -/
 namespace Driver
 
@@ -176,6 +177,73 @@ def stackMachine : Machine Stack.St where
   describe s t := reprStr (s.thr t) ++ s!" flag={s.flag} items={s.items}"
   cmpVal _ := false
 
+/-! ### M8 Wake — producers are threads `< 100`, the task of stream `j` is thread `100 + j` -/
+structure WakeD where
+  s : Mutiny.Wake.St
+  /-- streams whose task is inside a poll -/
+  polling : List Nat
+
+open Mutiny in
+def wakeMachine : Machine WakeD where
+  call d t op args :=
+    let s := d.s
+    let idle := s.thr t == .idle
+    let nat (x : String) := x.toNat!
+    match op, args with
+    | "send", [v]     => if idle then some { d with s := Wake.apply s (.send t (nat v)) } else none
+    | "sendwith", [v] => if idle then some { d with s := Wake.apply s (.sendWith t (nat v)) } else none
+    | "sendrsv", [v]  => if idle then some { d with s := Wake.apply s (.sendRsv t (nat v)) } else none
+    | "asyncmov", [v] => if idle then some { d with s := Wake.apply s (.asyncMov t (nat v)) } else none
+    | "asynczc", [v]  => if idle then some { d with s := Wake.apply s (.asyncZc t (nat v)) } else none
+    | "resume", []    => match s.thr t with
+                         | .aSusp _ _ => match s.resv with
+                                         | (t', _) :: _ => if t' == t then some { d with s := Wake.apply s (.resume t) } else none
+                                         | [] => none
+                         | .zSusp _ => some { d with s := Wake.apply s (.resume t) }
+                         | _ => none
+    | "cancel", [j]   => if idle && nat j < s.k then some { d with s := Wake.apply s (.cancel t (nat j)) } else none
+    | "release", []   => if s.zc && s.held > 0 then some { d with s := Wake.apply s .release } else none
+    | "drop", [j]     =>
+        let j := nat j
+        if t == 100 + j && j < s.k && s.sloc j == .ended && !d.polling.contains j then some { s := Wake.apply s (.dropS j), polling := j :: d.polling } else none
+    | "poll", [j, tk] =>
+        let j := nat j
+        if t != 100 + j || j >= s.k || d.polling.contains j then none else
+        match s.sloc j with
+        | .ready => if nat tk == s.tok j then some { s := Wake.apply s (.poll j none), polling := j :: d.polling } else none
+        | .parked => some { s := Wake.apply s (.poll j (if nat tk == s.tok j then none else some (nat tk))), polling := j :: d.polling }
+        | _ => none
+    | _, _ => none
+  tag d t := if t ≥ 100 then Wake.tagOfS (t - 100) (d.s.sloc (t - 100)) else Wake.tagOfP (d.s.thr t)
+  step d t := if t ≥ 100 then { d with s := Wake.stepS d.s (t - 100) } else { d with s := Wake.stepP d.s t }
+  result d t :=
+    if t ≥ 100 then
+      let j := t - 100
+      if !d.polling.contains j then none else
+      match d.s.sloc j with
+      | .ready => match (d.s.delivered.filter (·.1 == j)).getLast? with
+                  | some (_, v) => some s!"item {v}"
+                  | none => none
+      | .parked => some "pending"
+      | .ended => some "end"
+      | .dropped => some "dropped"
+      | _ => none
+    else match d.s.thr t with
+      | .done r => some r.show
+      | .aSusp _ _ => some "susp"
+      | .zSusp _ => some "susp"
+      | _ => none
+  ack d t :=
+    if t ≥ 100 then { d with polling := d.polling.erase (t - 100) }
+    else { d with s := Wake.apply d.s (.ack t) }
+  observe d k := match k with
+    | "pending" => some (toString d.s.q.length)
+    | _ => none
+  describe d t :=
+    if t ≥ 100 then reprStr (d.s.sloc (t - 100)) ++ s!" q={d.s.q} waker={reprStr (d.s.waker (t - 100))} tok={d.s.tok (t - 100)}"
+    else reprStr (d.s.thr t) ++ s!" q={d.s.q} resv={d.s.resv} held={d.s.held}"
+  cmpVal tag := tag != "sync.spin"
+
 def lookup (kv : List (String × String)) (k : String) : Option String :=
   (kv.find? (·.1 == k)).map (·.2)
 
@@ -186,6 +254,14 @@ def mkMachine (kv : List (String × String)) : Option AnyMachine :=
   | some "lockring" => some { σ := _, m := lockRingMachine, s := Mutiny.LockRing.init n }
   | some "incavg" => some { σ := _, m := incAvgMachine, s := Mutiny.IncAvg.init }
   | some "stack" => some { σ := _, m := stackMachine, s := Mutiny.Stack.init n }
+  | some "wake" =>
+      let mx := ((lookup kv "MAX").getD "1").toNat!
+      let k := ((lookup kv "k").getD "1").toNat!
+      let rule := match lookup kv "rule" with
+        | some "atomic" => Mutiny.Wake.Rule.atomic
+        | some "cb" => .cb
+        | _ => .fs
+      some { σ := _, m := wakeMachine, s := { s := Mutiny.Wake.init n mx k rule ((lookup kv "zc") == some "1"), polling := [] } }
   | some "handles" => some { σ := _, m := handlesMachine, s := Mutiny.Handles.init n }
   | _ => none
 
